@@ -102,7 +102,9 @@ Inductive sval :=
 | VChoice (f : nat)                           (* initiator: the feature picked from the cache (map order) *)
 | VOut (mask : N) (restart : bool) (err : bool)   (* outcome of a custom feature's Negotiate *)
 | VStep (more : bool) (err : serr)            (* one Step of the SASL mechanism *)
-| VBind (err : berr).                         (* the bind callback of the receiving side *)
+| VBind (err : berr)                          (* the bind callback of the receiving side *)
+| VList (req err : bool)                      (* what a custom feature's List reported *)
+| VParse (req err : bool).                    (* what a custom feature's Parse reported *)
 
 Definition sval_err (v : sval) : bool :=
   match v with
@@ -110,6 +112,8 @@ Definition sval_err (v : sval) : bool :=
   | VOut _ _ e => e
   | VStep _ e => match e with SNone => false | _ => true end
   | VBind e => match e with BOk => false | _ => true end
+  | VList _ e => e
+  | VParse _ e => e
   end.
 
 (* ------------------------------------------------------------------ programs *)
@@ -206,16 +210,28 @@ Inductive fault := FNone | FCut (k : nat) | FTransient (k : nat).
 
 Record plan := mkPlan {
   p_fault : fault;
-  p_cancel : option nat;  (* the context is cancelled while operation c is in progress / entered *)
+  p_cancel : option nat;  (* the context is cancelled at operation c: *)
+  p_entry : bool;         (*   true: when c is entered or while it is blocked; false: when it has succeeded *)
+  p_deadline : bool;      (* the transport has deadlines: session.go's setDeadline keeps the deadline
+                             expired from the cancellation on, so every operation after it fails
+                             (and operation c itself when it had not completed) *)
   p_hs_ok : bool          (* the TLS handshake succeeds when nothing is injected *)
 }.
 
-Definition p_fail (pl : plan) (i : nat) : bool :=
-  match p_fault pl with
+Definition fault_fail (f : fault) (i : nat) : bool :=
+  match f with
   | FNone => false
   | FCut k => k <=? i
   | FTransient k => i =? k
   end.
+
+Definition cancel_fail (pl : plan) (i : nat) : bool :=
+  match p_cancel pl with
+  | Some c => p_deadline pl && ((c <? i) || ((i =? c) && p_entry pl))
+  | None => false
+  end.
+
+Definition p_fail (pl : plan) (i : nat) : bool := fault_fail (p_fault pl) i || cancel_fail pl i.
 
 Record world := mkW {
   w_ops : nat;              (* operations performed so far *)
@@ -480,7 +496,7 @@ Definition negotiate_feature (n : nat) (recv : bool) (f : feature) : prog outcom
   end.
 
 (* streamFeaturesList: cache = list of (feature index, required), newest binding first *)
-Record flist := mkFL { fl_total : nat; fl_req : bool; fl_cache : list (nat * bool) }.
+Record flist := mkFL { fl_total : nat; fl_req : bool; fl_allowed : nat; fl_cache : list (nat * bool) }.
 
 Fixpoint cache_find (f : nat) (c : list (nat * bool)) : option bool :=
   match c with
@@ -501,17 +517,20 @@ Fixpoint list_features (fs : list feature) (i : nat) (bits : N) (acc : flist) : 
       if allowed f bits then
         logev (EList i) ;;;
         r <- match f_kind f with
-             | FCustom => if f_lerr f then wru WPartial ;;; Fail else Ret (f_lreq f)
+             | FCustom =>       (* the List step reports (required, error); an error ends the list *)
+                 Call (fun v => match v with VList req _ => Ret req | _ => Stuck end)
+                      (fun _ => wru WPartial ;;; Fail)
              | FSASL => Ctx (wru WPartial ;;; Fail) (Ret true)   (* ctx test per mechanism *)
              | _ => Ret true
              end ;;
-        list_features fs' (S i) bits (mkFL (S (fl_total acc)) (fl_req acc || r) (cache_add i r (fl_cache acc)))
+        list_features fs' (S i) bits
+          (mkFL (S (fl_total acc)) (fl_req acc || r) (S (fl_allowed acc)) (cache_add i r (fl_cache acc)))
       else list_features fs' (S i) bits acc
   end.
 
 Definition write_features (cfg : config) : prog flist :=
   bits <- get_bits ;;
-  l <- list_features (c_feats cfg) 0 bits (mkFL 0 false []) ;;
+  l <- list_features (c_feats cfg) 0 bits (mkFL 0 false 0 []) ;;
   wr WFeatures ;;; Ret l.
 
 (* readStreamFeatures, after the start tag *)
@@ -522,19 +541,26 @@ Fixpoint read_children (n : nat) (cfg : config) (acc : flist) : prog flist :=
       Rd (fun t =>
         match t with
         | Open c =>
-            let acc1 := mkFL (S (fl_total acc)) (fl_req acc) (fl_cache acc) in
+            let acc1 := mkFL (S (fl_total acc)) (fl_req acc) (fl_allowed acc) (fl_cache acc) in
             match c with
             | KFeat f req perr =>
                 match nth_error (c_feats cfg) f with
                 | Some ft =>
                     logev (EParse f) ;;;
                     skip n' 0 ;;;
-                    guard (negb perr) ;;;
-                    let req' := match f_kind ft with FSASL | FBind => true | _ => req end in
+                    (* the Parse step reports (required, error) *)
+                    req' <- match f_kind ft with
+                            | FCustom => Call (fun v => match v with VParse r _ => Ret r | _ => Stuck end) (fun _ => Fail)
+                            | FStartTLS => guard (negb perr) ;;; Ret req
+                            | _ => guard (negb perr) ;;; Ret true
+                            end ;;
                     bits <- get_bits ;;
+                    (* cached whether or not its prerequisites hold now; they are tested again
+                       when a feature is selected *)
                     read_children n' cfg
                       (mkFL (fl_total acc1) (fl_req acc1 || req')
-                            (if allowed ft bits then cache_add f req' (fl_cache acc1) else fl_cache acc1))
+                            (if allowed ft bits then S (fl_allowed acc1) else fl_allowed acc1)
+                            (cache_add f req' (fl_cache acc1)))
                 | None => skip n' 0 ;;; read_children n' cfg acc1
                 end
             | _ => skip n' 0 ;;; read_children n' cfg acc1
@@ -557,23 +583,27 @@ Definition candidate (cfg : config) (negotiated : list nat) (bits : N) (e : nat 
   | None => false
   end.
 
-Definition after_loop (l : flist) (o : outcome) : outcome :=
+(* The mask negotiateFeatures returns: the Ready bit of a feature takes effect only here, at
+   the end of the feature set, and never while a stream restart is pending. ready: one of the
+   features negotiated from this list (the last one included) reported Ready. *)
+Definition after_loop (l : flist) (ready : bool) (o : outcome) : outcome :=
+  let m := N.ldiff (fst o) st_Ready in
   match snd o with
-  | RSNone => if fl_req l then o else (N.lor (fst o) st_Ready, RSNone)
-  | _ => o
+  | RSNone => if ready || negb (fl_req l) then (N.lor m st_Ready, RSNone) else (m, RSNone)
+  | rs => (m, rs)
   end.
 
 Definition run_feature (n : nat) (recv : bool) (f : nat) (ft : feature) (pre : list tok) : prog outcome :=
   logev (ENegStart f) ;;;
   o <- feed pre (negotiate_feature n recv ft) ;;
   logev (ENegOk f (fst o) (snd o)) ;;;
-  or_bits (fst o) ;;;
+  or_bits (N.ldiff (fst o) st_Ready) ;;;     (* every bit but Ready is applied right away *)
   Ret o.
 
 (* k bounds the iterations (each negotiates a feature of the cache that was not negotiated
    before, so the size of the cache + 1 suffices); n is the fuel of the loops inside *)
 Fixpoint init_loop (k n : nat) (cfg : config) (l : flist) (force : option (nat * feature))
-                   (negotiated : list nat) : prog outcome :=
+                   (negotiated : list nat) (ready : bool) : prog outcome :=
   match k with
   | O => OutOfFuel
   | S k' =>
@@ -607,9 +637,11 @@ Fixpoint init_loop (k n : nat) (cfg : config) (l : flist) (force : option (nat *
       | None => Ret (st_Ready, RSNone)
       | Some (f, ft, req) =>
           o <- run_feature n false f ft [] ;;
+          let ready' := ready || has (fst o) st_Ready in
           match snd o with
-          | RSNone => if req then Ret (after_loop l o) else init_loop k' n cfg l force (f :: negotiated)
-          | _ => Ret o
+          | RSNone => if req then Ret (after_loop l ready' o)
+                      else init_loop k' n cfg l force (f :: negotiated) ready'
+          | _ => Ret (after_loop l ready' o)
           end
       end
   end.
@@ -618,7 +650,7 @@ Definition features_initiator (n : nat) (cfg : config) (first : bool) : prog out
   Rd (fun t =>
     match t with
     | Open KFeatures =>
-        l <- read_children n cfg (mkFL 0 false []) ;;
+        l <- read_children n cfg (mkFL 0 false 0 []) ;;
         bits <- get_bits ;;
         let force :=
           match find_starttls (c_feats cfg) 0 with
@@ -629,13 +661,11 @@ Definition features_initiator (n : nat) (cfg : config) (first : bool) : prog out
           | None => None
           end in
         match force with
-        | Some _ => init_loop (S (length (fl_cache l))) n cfg l force []
+        | Some _ => init_loop (S (length (fl_cache l))) n cfg l force [] false
         | None =>
             if fl_total l =? 0 then Ret (st_Ready, RSNone)
-            else match fl_cache l with
-                 | [] => Fail
-                 | _ => init_loop (S (length (fl_cache l))) n cfg l None []
-                 end
+            else if fl_allowed l =? 0 then Fail
+            else init_loop (S (length (fl_cache l))) n cfg l None [] false
         end
     | _ => Fail
     end).
@@ -647,7 +677,7 @@ Fixpoint trim_space (n : nat) : prog tok :=
   | S n' => Rd (fun t => match t with Text true => trim_space n' | _ => Ret t end)
   end.
 
-Fixpoint recv_loop (n : nat) (cfg : config) (l : flist) (negotiated : list nat) : prog outcome :=
+Fixpoint recv_loop (n : nat) (cfg : config) (l : flist) (negotiated : list nat) (ready : bool) : prog outcome :=
   match n with
   | O => OutOfFuel
   | S n' =>
@@ -670,9 +700,11 @@ Fixpoint recv_loop (n : nat) (cfg : config) (l : flist) (negotiated : list nat) 
             | Some req, Some ft =>
                 if negb (mem f negotiated) && neg_of ft && allowed ft bits then
                   o <- run_feature n' true f ft (snd sel) ;;
+                  let ready' := ready || has (fst o) st_Ready in
                   match snd o with
-                  | RSNone => if req then Ret (after_loop l o) else recv_loop n' cfg l (f :: negotiated)
-                  | _ => Ret o
+                  | RSNone => if req then Ret (after_loop l ready' o)
+                              else recv_loop n' cfg l (f :: negotiated) ready'
+                  | _ => Ret (after_loop l ready' o)
                   end
                 else Fail
             | _, _ => Fail
@@ -683,7 +715,7 @@ Fixpoint recv_loop (n : nat) (cfg : config) (l : flist) (negotiated : list nat) 
 
 Definition features_receiver (n : nat) (cfg : config) : prog outcome :=
   l <- write_features cfg ;;
-  recv_loop n cfg l [].
+  recv_loop n cfg l [] false.
 
 (* ------------------------------------------------------------------ negotiators *)
 
@@ -795,6 +827,8 @@ Definition sval_eqb (a b : sval) : bool :=
   | VOut m r e, VOut m' r' e' => N.eqb m m' && bool_eqb r r' && bool_eqb e e'
   | VStep m e, VStep m' e' => bool_eqb m m' && serr_eqb e e'
   | VBind e, VBind e' => berr_eqb e e'
+  | VList r e, VList r' e' => bool_eqb r r' && bool_eqb e e'
+  | VParse r e, VParse r' e' => bool_eqb r r' && bool_eqb e e'
   | _, _ => false
   end.
 
